@@ -91,7 +91,8 @@ Definition cfg_key (kd : Config.ckind) : mkey :=
   | Config.CNetmap => (KNetmap, "setConfig", 3%nat)
   | Config.CNeoFS => (KNeoFS, "setConfig", 3%nat)
   end.
-Definition to_cop (c : ctx) (a : args) (id key v : bytes) : Config.cop :=
+(* the types of [id], [key], [v] are those of [Config.CSet] *)
+Definition to_cop (c : ctx) (a : args) id key v : Config.cop :=
   Config.CSet (alpha_of c a) id key v.
 
 Lemma inert_Config kd s c a id key v r :
